@@ -44,7 +44,7 @@ def make_plans(rng, steps, n_random=2):
     finalM, _ = prog.run_model(steps)
     born = created_at(steps)
     plans = []
-    read_ops = prog.FLOAT_READS if steps[0].get("dtype", "int64") == "float64" else prog.READ_OPS
+    read_ops = prog.FLOAT_READS if steps[0].get("dtype", "int64") == "float64" else [o for o in prog.READ_OPS if o not in prog.NOT_READS]
     if steps[0].get("via") == "unsafe":
         read_ops = [o for o in read_ops if o not in ("elem_oob", "badadd")]
 
